@@ -1,5 +1,6 @@
 import PepitVerif.Math.AddPointSpec
 import PepitVerif.Math.OracleInv
+import PepitVerif.Math.OracleFresh
 
 /-!
 # Property C07: oracle bookkeeping is coherent for leaf and composite functions
@@ -51,14 +52,28 @@ namespace Pepit.C07
 inductive Call where
   | oracle (f : Nat) (x : PDict)      -- `f.oracle(x)` and `f.gradient(x)` (same bookkeeping)
   | value (f : Nat) (x : PDict)       -- `f.value(x)`
+  | stationary (f : Nat)              -- `f.stationary_point()`
+  | fixed (f : Nat)                   -- `f.fixed_point()`
 
+/-- what a program can write at the moment of the call: an existing function, a point made of existing
+leaf points; a stationary / fixed point is asked of a leaf function or of a sum with at least one term
+(the zero function is the known finding `KF-C07-zero-function-point`) -/
 def Call.valid (w : AW) : Call → Prop
-  | .oracle f x => f < w.funs.length ∧ (Dict.keys x).Nodup
-  | .value f x => f < w.funs.length ∧ (Dict.keys x).Nodup
+  | .oracle f x => f < w.funs.length ∧ (Dict.keys x).Nodup ∧ ∀ k ∈ Dict.keys x, k < w.nP
+  | .value f x => f < w.funs.length ∧ (Dict.keys x).Nodup ∧ ∀ k ∈ Dict.keys x, k < w.nP
+  | .stationary f => f < w.funs.length ∧ ((w.getF f).isLeaf = false → Dict.prune (w.getF f).decomp ≠ [])
+  | .fixed f => f < w.funs.length ∧ ((w.getF f).isLeaf = false → Dict.prune (w.getF f).decomp ≠ [])
 
 def step (w : AW) : Call → AW
   | .oracle f x => (oracleA w f x).1
   | .value f x => (valueA w f x).1
+  | .stationary f => (stationaryPointA w f).1
+  | .fixed f => (fixedPointA w f).1
+
+/-- every call is valid in the world in which it is made -/
+def RunOk : AW → List Call → Prop
+  | _, [] => True
+  | w, c :: rest => Call.valid w c ∧ RunOk (step w c) rest
 
 theorem valueA_inv (w : AW) (f : Nat) (x : PDict) (hf : f < w.funs.length) (hx : (Dict.keys x).Nodup)
     (hi : OInv w) : OInv (valueA w f x).1 := by
@@ -109,40 +124,42 @@ theorem oracleA_len (w : AW) (f : Nat) (x : PDict) : (oracleA w f x).1.funs.leng
     · simp only
       split <;> split <;> (try split) <;> simp only [addPointA_len] <;> exact h0
 
-theorem step_len (w : AW) (c : Call) : (step w c).funs.length = w.funs.length := by
-  cases c with
-  | oracle f x => exact oracleA_len w f x
-  | value f x =>
-    simp only [step]; unfold valueA
-    cases lookupTriple (w.getF f).pts x with
-    | some t => rfl
-    | none => exact oracleA_len w f x
-
 /-- run a sequence of calls -/
 def run (w : AW) (calls : List Call) : AW := calls.foldl step w
 
+/-- one call preserves the invariant and the freshness bound -/
+theorem step_inv (w : AW) (c : Call) (hi : OInv w) (hb : Bounded w) (hc : Call.valid w c) :
+    OInv (step w c) ∧ Bounded (step w c) := by
+  cases c with
+  | oracle f x => exact ⟨oracleA_inv w f x hc.1 hc.2.1 hi, (bounded_oracleA w f x hb hc.2.2).1⟩
+  | value f x => exact ⟨valueA_inv w f x hc.1 hc.2.1 hi, (bounded_valueA w f x hb hc.2.2).1⟩
+  | stationary f =>
+    obtain ⟨h1, h2, _⟩ := stationaryPointA_inv w f hi hb hc.1 hc.2
+    exact ⟨h1, h2⟩
+  | fixed f =>
+    obtain ⟨h1, h2, _⟩ := fixedPointA_inv w f hi hb hc.1 hc.2
+    exact ⟨h1, h2⟩
+
 /-- **for every world of declared functions in which the invariant holds (in particular every world in
-which nothing has been evaluated yet) and every finite sequence of oracle / gradient / value calls on
-existing functions, in any order, on leaf and composite functions alike, the invariant holds at the
-end**: stored dictionaries are well formed and every triplet recorded on a composite function is the
-weighted sum of triplets recorded at the same point on its terms -/
-theorem run_inv : ∀ (calls : List Call) (w : AW), OInv w → (∀ c ∈ calls, Call.valid w c) → OInv (run w calls) := by
+which nothing has been evaluated yet) and every finite sequence of oracle / gradient / value /
+stationary-point / fixed-point calls, each valid when it is made, in any order, on leaf and composite
+functions alike, the invariant holds at the end**: stored dictionaries are well formed, every triplet
+recorded on a composite function is the weighted sum of triplets recorded at the same point on its
+terms, and recorded points only mention existing leaf points -/
+theorem run_inv : ∀ (calls : List Call) (w : AW), OInv w → Bounded w → RunOk w calls →
+    OInv (run w calls) ∧ Bounded (run w calls) := by
   intro calls
   induction calls with
-  | nil => intro w hi _; exact hi
+  | nil => intro w hi hb _; exact ⟨hi, hb⟩
   | cons c rest ih =>
-    intro w hi hv
-    have hc := hv c List.mem_cons_self
-    have hstep : OInv (step w c) := by
-      cases c with
-      | oracle f x => exact oracleA_inv w f x hc.1 hc.2 hi
-      | value f x => exact valueA_inv w f x hc.1 hc.2 hi
-    apply ih (step w c) hstep
-    intro c' hc'
-    have := hv c' (List.mem_cons_of_mem _ hc')
-    cases c' with
-    | oracle f x => exact ⟨by rw [step_len]; exact this.1, this.2⟩
-    | value f x => exact ⟨by rw [step_len]; exact this.1, this.2⟩
+    intro w hi hb hv
+    obtain ⟨h1, h2⟩ := step_inv w c hi hb hv.1
+    exact ih (step w c) h1 h2 hv.2
+
+/-- **a declared stationary point has zero total gradient** (whatever was called before) -/
+theorem stationary_zero_gradient (w : AW) (f : Nat) (hi : OInv w) (hf : f < w.funs.length) :
+    ∃ t ∈ ((step w (.stationary f)).getF f).pts, t.x = leafPoint w.nP ∧ t.g = [] :=
+  stationaryPointA_records w f hi hf
 
 /-- a world in which functions are declared and nothing is evaluated satisfies the invariant as soon as
 its composites are well structured -/
@@ -186,14 +203,35 @@ theorem demo_inv : OInv demoWorld := by
       | (n + 3) => rfl
     exact this f
 
-/-- the hypotheses of `run_inv` are met by a concrete world and a concrete call sequence -/
-example : OInv (run demoWorld [.oracle 0 [(0, 1)], .oracle 2 [(0, 1)], .value 2 [(1, 1)], .oracle 2 [(0, 1)]]) := by
-  apply run_inv _ _ demo_inv
-  intro c hc
-  simp only [List.mem_cons, List.mem_nil_iff, or_false] at hc
-  rcases hc with rfl | rfl | rfl | rfl <;> exact ⟨by decide, by decide⟩
+theorem bounded_of_fresh (w : AW) (hempty : ∀ f, (w.getF f).pts = []) : Bounded w := by
+  intro f t ht; rw [hempty f] at ht; cases ht
 
-example : ((run demoWorld [.oracle 0 [(0, 1)], .oracle 2 [(0, 1)], .value 2 [(1, 1)], .oracle 2 [(0, 1)]]).getF 2).pts.length = 3 := by
+theorem demo_bounded : Bounded demoWorld := by
+  apply bounded_of_fresh
+  intro g
+  unfold AW.getF demoWorld
+  simp only [List.getD_eq_getElem?_getD]
+  match g with
+  | 0 => rfl
+  | 1 => rfl
+  | 2 => rfl
+  | (n + 3) => rfl
+
+def demoCalls : List Call :=
+  [.oracle 0 [(0, 1)], .oracle 2 [(0, 1)], .value 2 [(1, 1)], .stationary 2, .oracle 2 [(0, 1)], .fixed 0]
+
+/-- the hypotheses of `run_inv` are met by a concrete world and a concrete call sequence (every call is
+valid when it is made: decided by evaluation) -/
+theorem demo_runOk : RunOk demoWorld demoCalls := by
+  unfold demoCalls
+  refine ⟨⟨by decide, by decide, by decide⟩, ⟨by decide, by decide, by decide +kernel⟩,
+    ⟨by decide, by decide, by decide +kernel⟩, ⟨by decide, fun _ => by decide +kernel⟩,
+    ⟨by decide, by decide, by decide +kernel⟩, ⟨by decide, fun h => by revert h; decide +kernel⟩, trivial⟩
+
+example : OInv (run demoWorld demoCalls) ∧ Bounded (run demoWorld demoCalls) :=
+  run_inv _ _ demo_inv demo_bounded demo_runOk
+
+example : ((run demoWorld demoCalls).getF 2).pts.length = 4 := by
   decide +kernel
 
 end Pepit.C07
